@@ -40,7 +40,7 @@ func (h harnessErr) Error() string { return h.msg }
 // and implemented in stdlib/restricted.go: table path -> key -> local name.
 var restrictedFuncs = map[string]map[string]string{
 	"os":  {"Exit": "osExit", "FindProcess": "osFindProcess"},
-	"log": {"Fatal": "logFatal", "Fatalf": "logFatalf", "Fatalln": "logFatalln", "New": "logNew"},
+	"log": {"Fatal": "logFatal", "Fatalf": "logFatalf", "Fatalln": "logFatalln", "New": "logNew", "Default": "logDefault"},
 }
 var restrictedTypes = map[string]map[string]string{
 	"log": {"Logger": "logLogger"},
